@@ -64,6 +64,15 @@ def call(I, c, e, env):
         return do_push(I, var, path, val, env)
     if name == "for_each" and tr == "Iterator":
         return for_each(I, args_e, env, e)
+    if tr == "MomTropFloat" and name in ("zero", "one", "PI", "from_f64", "from_isize") and args_e:
+        # the receiver of a constant builder is a precision carrier, not a data dependence
+        I.suppress_reads += 1
+        try:
+            a0 = I.eval(args_e[0], env)
+        finally:
+            I.suppress_reads -= 1
+        args = [a0] + [I.eval(a, env) for a in args_e[1:]]
+        return call_values(I, c, args, e, env)
     args = [I.eval(a, env) for a in args_e]
     return call_values(I, c, args, e, env)
 
@@ -303,7 +312,9 @@ def call_values(I, c, args, e=None, env=None):
         v0 = args[0]
         if n.size is not None:
             return Arr((n.size,), lambda i, _v=v0: _v, name="from_elem")
-        raise Undecided("from_elem with extent %s" % n.expr.key())
+        cls = "⟨%s⟩" % n.expr.simplified().key()
+        I.derived_sizes[cls] = n.expr
+        return Arr((cls,), lambda i, _v=v0: _v, name="from_elem")
     if name in ("last", "first") and isinstance(args[0], Arr):
         seq = args[0]
         if isinstance(seq, ListV):
